@@ -13,6 +13,22 @@
 #include "dxcore.hpp"
 
 static std::map<std::string, Config> g_pre; // configuration key -> predecessor (re-initialisation chains)
+// collision histories: before every port shot of the configuration, one shot of another configuration (own working set,
+// same thread) with recorded deviates; the exploration starts from a recorded execution of the configuration itself
+struct Hist { Config cfg; Forced forced, start; };
+static std::map<std::string, Hist> g_hist;
+static Forced parse_forced(const std::string & t)
+{
+  Forced f;
+  if (t == "-") return f;
+  std::stringstream ss(t);
+  std::string kv;
+  while (std::getline(ss, kv, ',')) {
+    size_t c = kv.find(':');
+    if (c != std::string::npos) f[(size_t)atol(kv.substr(0, c).c_str())] = atof(kv.substr(c + 1).c_str());
+  }
+  return f;
+}
 
 // ---------------------------------------------------------------- exploration state
 struct Violation {
@@ -37,6 +53,11 @@ struct Explorer {
   std::map<uint32_t, std::vector<double>> site_roots;
   std::vector<double> last_roots;
   std::set<uint32_t> swept;
+  PortSide * Hs = nullptr; // history working set (collision histories)
+  Forced hist_forced;
+  bool collect_calls = false;
+  struct CallInfo { int unit; std::vector<double> args; bool has_first = false, has_last = false; Forced first, last; };
+  std::map<std::string, CallInfo> calls;
   uint32_t last_ctx_for_sweep = 0;
   long sweep_execs = 0;
   std::set<uint64_t> sigs;
@@ -91,16 +112,36 @@ struct Explorer {
       o.ctx.assign(d0ref::mon.draw_ctx.begin(), d0ref::mon.draw_ctx.end());
       o.sites = d0ref::mon.draw_sites;
       o.margin = d0ref::mon.min_margin;
+      std::vector<d0ref::CallRec> model_calls;
+      if (collect_calls) model_calls = d0ref::mon.calls;
+      if (Hs) Hs->shot(hist_forced);
       o.p = P.shot(f, false);
       o.diff = compare(cfg, o.r, o.p);
-      // a near-tie inside the golden-section search (tolerance 1e-3 of the range) may move the located spectrum maximum,
-      // hence every rejection threshold scaled by it, by up to ~(tolerance)^2 x curvature: demand a 2e-3 margin then
       // rejection tests of the beta samplers: 2e-4 (short constants of the reference inside the Fermi function)
-      double tau_shape = d0ref::mon.min_qmargin < tau ? 2e-3 : 2e-4;
+      // (a near-tie inside the golden-section search keeps either half of a bracket that still contains the maximum of a
+      // unimodal spectrum: the located maximum moves by O(curvature x tolerance^2) ~ 1e-5; 5e-4 is demanded then)
+      double tau_shape = d0ref::mon.min_qmargin < tau ? 5e-4 : 2e-4;
       o.robust = o.margin >= tau && d0ref::mon.min_smargin >= std::max(tau, tau_shape);
       o.margin = std::min(o.margin, d0ref::mon.min_smargin);
       validated++;
+      if (collect_calls && !model_calls.empty() && o.robust) {
+        auto keyof = [](const d0ref::CallRec & c) {
+          std::string k = std::to_string(c.unit);
+          char b[40];
+          for (double a : c.args) { snprintf(b, sizeof b, ":%.17g", a); k += b; }
+          return k;
+        };
+        const auto & fc = model_calls.front();
+        const auto & lc = model_calls.back();
+        auto & a = calls[keyof(fc)];
+        a.unit = fc.unit; a.args = fc.args;
+        if (!a.has_first) { a.has_first = true; a.first = f; }
+        auto & b = calls[keyof(lc)];
+        b.unit = lc.unit; b.args = lc.args;
+        if (!b.has_last) { b.has_last = true; b.last = f; }
+      }
     } else {
+      if (Hs) Hs->shot(hist_forced);
       o.p = P.shot(f, true);
       o.ctx = P.ctx;
       // without a model the return-address chain is all there is, and the optimiser merges the call sites of
@@ -162,13 +203,17 @@ struct Explorer {
     if (o.robust) {
       mism++;
       add_violation("ref", o.diff, f, o.margin);
-    } else amb++;
+    } else {
+      amb++;
+      if (getenv("DX_DEBUG")) fprintf(stderr, "ambiguous: %s forced=%s margin=%g smargin=%g qmargin=%g\n", o.diff.c_str(), vx::forced_to_json(f).c_str(), d0ref::mon.min_margin, d0ref::mon.min_smargin, d0ref::mon.min_qmargin);
+    }
   }
 
   // ---- threshold discovery on the model: roots of the affine comparisons that follow draw i
   struct Root {
     double u;
     bool literal;
+    int cls = 0; // 1: rejection test of a beta sampler (shape margin class)
   };
   std::vector<Root> roots_at(Forced f, size_t i, double v)
   {
@@ -186,7 +231,7 @@ struct Explorer {
       double g1 = c1[k].a - c1[k].b, g2 = c2[k].a - c2[k].b;
       if (g1 == g2) continue;
       double u = v - g1 * h / (g2 - g1);
-      if (u > 1e-13 && u < 1 - 1e-13) out.push_back({u, c1[k].b == c2[k].b && c1[k].a != c2[k].a});
+      if (u > 1e-13 && u < 1 - 1e-13) out.push_back({u, c1[k].b == c2[k].b && c1[k].a != c2[k].a, c1[k].cls});
     }
     return out;
   }
@@ -280,7 +325,8 @@ struct Explorer {
     last_roots.clear();
     for (auto & r : roots) last_roots.push_back(r.u);
     std::sort(last_roots.begin(), last_roots.end());
-    for (auto & r : roots) {
+    for (size_t k = 0; k < roots.size(); k++) {
+      auto & r = roots[k];
       for (int side = -1; side <= 1; side += 2) {
         double delta = model ? 1e-7 : 1e-6;
         double v = r.u * (1 + side * delta);
@@ -294,6 +340,16 @@ struct Explorer {
             Out o = exec(g, false);
             if (o.diff.empty() || o.robust) break;
           }
+          // the representative that is explored further must itself be clear of this threshold, or every execution
+          // that inherits it (the whole rare branch behind it) is non-robust and can only ever be "ambiguous":
+          // 4 tau (margin = delta/2) resp. 2e-3 for the shape class, but never beyond the middle of the interval
+          // to the neighbouring threshold
+          double dpush = std::max(delta, r.cls == 1 ? 2e-3 : 4 * tau);
+          double vp = r.u * (1 + side * dpush);
+          double nb = side > 0 ? (k + 1 < roots.size() ? roots[k + 1].u : 1.0) : (k > 0 ? roots[k - 1].u : 0.0);
+          double mid = 0.5 * (r.u + nb);
+          if ((side > 0 && vp > mid) || (side < 0 && vp < mid)) vp = mid;
+          if (vp > 0 && vp < 1) v = vp;
         }
         if (v > 0 && v < 1) al.push_back(v);
       }
@@ -396,6 +452,28 @@ struct Explorer {
         if (deadline_hit) return;
       }
     }
+  }
+  // ---- layer H: around one recorded execution (collision histories): every position of it gets its alphabet
+  // (tails, mid, both sides of every threshold, shape sweep), all other positions keep the recorded values
+  void layer_H(const Forced & start)
+  {
+    long before = execs;
+    Out o = exec(start);
+    judge(o, start);
+    if (!(o.p.horizon || o.r.horizon || o.p.threw)) {
+      for (size_t i = 0; i < o.ctx.size(); i++) {
+        if (out_of_time()) break;
+        last_ctx_for_sweep = o.ctx[i];
+        for (double a : alphabet(start, i)) {
+          Forced g = start;
+          g[i] = a;
+          edges++;
+          Out q = exec(g);
+          judge(q, g);
+        }
+      }
+    }
+    layer_execs["H"] = execs - before;
   }
   void layer_B(int d)
   {
@@ -501,12 +579,13 @@ struct Opts {
   double etol = 0.003;
   int phases = 1;
   std::string litdir;
+  bool calls = false;
 };
 
 static std::string cfg_json(const Config & c)
 {
   return "{\"cat\":" + jstr(c.cat) + ",\"name\":" + jstr(c.name) + ",\"level\":" + std::to_string(c.level) + ",\"mode\":" + std::to_string(c.mode) + ",\"e1\":"
-         + jnum(c.e1) + ",\"e2\":" + jnum(c.e2) + "}";
+         + jnum(c.e1) + ",\"e2\":" + jnum(c.e2) + (c.hist.empty() ? std::string() : ",\"hist\":" + jstr(c.hist)) + "}";
 }
 
 static std::string run_config(const Config & c, const Opts & o)
@@ -537,6 +616,17 @@ static std::string run_config(const Config & c, const Opts & o)
     if (o.ref) X.R.init(pre->second, PHASE);
     X.P.init(pre->second, PHASE);
   }
+  PortSide histside;
+  auto hi = g_hist.find(c.key());
+  if (hi != g_hist.end()) {
+    // the history working set is initialised first, like a job that mixes several nuclides in one thread
+    if (histside.init(hi->second.cfg, PHASE) == 0) {
+      X.Hs = &histside;
+      X.hist_forced = hi->second.forced;
+    }
+  }
+  X.collect_calls = o.calls;
+  d0ref::mon.log_calls = o.calls;
   if (o.ref) ier = X.R.init(c, PHASE);
   int perr = X.P.init(c, PHASE);
   bool port_ok = (perr == 0);
@@ -600,6 +690,7 @@ static std::string run_config(const Config & c, const Opts & o)
         if (L == "A") X.layer_A();
         else if (L.size() == 2 && L[0] == 'B' && L[1] >= '1' && L[1] <= '4') X.layer_B(L[1] - '0');
         else if (L == "C") X.layer_C();
+        else if (L == "H") X.layer_H(hi != g_hist.end() ? hi->second.start : Forced());
         else if (L == "0") { auto out = X.exec(Forced()); X.judge(out, Forced()); }
       }
     }
@@ -616,7 +707,20 @@ static std::string run_config(const Config & c, const Opts & o)
     js << (first ? "" : ",") << jstr(kv.first) << ":" << kv.second;
     first = false;
   }
-  js << "},\"samples\":[";
+  js << "}";
+  if (o.calls) {
+    js << ",\"calls\":[";
+    bool fc = true;
+    for (auto & kv : X.calls) {
+      js << (fc ? "" : ",") << "{\"unit\":" << kv.second.unit << ",\"args\":[";
+      for (size_t k = 0; k < kv.second.args.size(); k++) js << (k ? "," : "") << jnum(kv.second.args[k]);
+      js << "],\"first\":" << (kv.second.has_first ? vx::forced_to_json(kv.second.first) : std::string("null")) << ",\"last\":"
+         << (kv.second.has_last ? vx::forced_to_json(kv.second.last) : std::string("null")) << "}";
+      fc = false;
+    }
+    js << "]";
+  }
+  js << ",\"hist_active\":" << (X.Hs ? "true" : "false") << ",\"samples\":[";
   for (size_t k = 0; k < X.samples.size(); k++) js << (k ? "," : "") << X.samples[k];
   js << "],\"violations\":[";
   for (size_t k = 0; k < X.viols.size(); k++) {
@@ -625,7 +729,9 @@ static std::string run_config(const Config & c, const Opts & o)
     std::string rep = "n/a";
     Ev p1, p2;
     if (port_ok) {
+      if (X.Hs) X.Hs->shot(X.hist_forced);
       p1 = X.P.shot(v.forced);
+      if (X.Hs) X.Hs->shot(X.hist_forced);
       p2 = X.P.shot(v.forced);
       auto biteq = [](const std::vector<double> & x, const std::vector<double> & y) { return x.size() == y.size() && (x.empty() || memcmp(x.data(), y.data(), x.size() * sizeof(double)) == 0); };
       bool same = p1.code == p2.code && biteq(p1.px, p2.px) && biteq(p1.t, p2.t) && p1.ndraws == p2.ndraws;
@@ -654,6 +760,28 @@ static bool parse_cfg(const std::string & line, Config & c)
   std::vector<std::string> tok;
   std::string t;
   while (is >> t) tok.push_back(t);
+  size_t ih = std::find(tok.begin(), tok.end(), "HIST") - tok.begin();
+  if (ih + 3 <= tok.size() && ih < tok.size()) {
+    // "... HIST cat name forced [START forced]"
+    Hist h;
+    h.cfg.cat = tok[ih + 1];
+    h.cfg.name = tok[ih + 2];
+    h.forced = parse_forced(ih + 3 < tok.size() ? tok[ih + 3] : "-");
+    c.hist = tok[ih + 1] + " " + tok[ih + 2] + " " + (ih + 3 < tok.size() ? tok[ih + 3] : "-");
+    if (ih + 5 < tok.size() && tok[ih + 4] == "START") {
+      h.start = parse_forced(tok[ih + 5]);
+      c.hist += " START " + tok[ih + 5];
+    }
+    tok.resize(ih);
+    // level/mode/window first so that the key is final
+    auto num0 = [&](size_t k, double dflt) { return k < tok.size() ? atof(tok[k].c_str()) : dflt; };
+    c.level = (int)num0(0, 0);
+    c.mode = (int)num0(1, 0);
+    c.e1 = num0(2, -1);
+    c.e2 = num0(3, -1);
+    g_hist[c.key()] = h;
+    return true;
+  }
   size_t ip = std::find(tok.begin(), tok.end(), "PRE") - tok.begin();
   auto num = [&](size_t k, size_t end, double dflt) { return k < end ? atof(tok[k].c_str()) : dflt; };
   c.level = (int)num(0, ip, 0);
@@ -698,6 +826,7 @@ int main(int argc, char ** argv)
     else if (a == "--deadline") o.deadline = atof(nxt().c_str());
     else if (a == "--etol") o.etol = atof(nxt().c_str());
     else if (a == "--litdir") o.litdir = nxt();
+    else if (a == "--calls") o.calls = true;
     else if (a == "--horizon") HORIZON = atol(nxt().c_str());
     else if (a == "--timeout") per_cfg_timeout = atof(nxt().c_str());
     else if (a == "--replay") replay = nxt();
@@ -730,10 +859,17 @@ int main(int argc, char ** argv)
     RefSide R;
     PortSide P;
     P.via_gen = o.via_gen;
+    PortSide H;
+    auto hi = g_hist.find(c.key());
+    bool hist_ok = hi != g_hist.end() && H.init(hi->second.cfg, PHASE) == 0;
     int ier = R.init(c, PHASE);
     int perr = P.init(c, PHASE);
     printf("config %s model_ier=%d port_err=%d\n", c.key().c_str(), ier, perr);
     if (perr == 0) {
+      if (hist_ok) {
+        Ev h = H.shot(hi->second.forced);
+        printf("history shot first (%s): %s\n", hi->second.cfg.key().c_str(), ev_json(h).c_str());
+      }
       Ev p = P.shot(f);
       printf("port : %s\n", ev_json(p).c_str());
       if (R.available) {
